@@ -20,6 +20,10 @@ D(e) == Decls[e.decl + 1]
 TVerdict == /\ Ev.ev = "verdict"
             /\ (Verdict(D(Ev)) = "accept" => Ev.accepted)
             /\ (Verdict(D(Ev)) = "reject" => ~Ev.accepted /\ Ev.in_decl)
+(* C11 (and C06): additionally the declared default must be a value of the declared base width *)
+TDefVerdict == /\ Ev.ev = "dverdict"
+               /\ ((Verdict(D(Ev)) = "accept" /\ DefaultFits(D(Ev))) => Ev.accepted)
+               /\ ((Verdict(D(Ev)) = "reject" \/ ~DefaultFits(D(Ev))) => ~Ev.accepted /\ Ev.in_decl)
 (* C10 *)
 TEnumVerdict == /\ Ev.ev = "everdict"
                 /\ Ev.accepted <=> EnumValid(D(Ev))
@@ -36,6 +40,11 @@ TProbe == /\ Ev.ev = "probe"
           /\ Ev.compiles <=> ProbeExpected(D(Ev), Ev.kind, Ev.field)
           (* an absent accessor is absent: the failure is "no such method", nothing else *)
           /\ (~Ev.compiles => Ev.code = "E0599")
+
+(* C17: whatever else a declaration asks for (e.g. the `debug` option), a field that is not readable has no getter --
+   either the declaration is rejected or the read does not compile *)
+TNoRead == /\ Ev.ev = "noread"
+           /\ (~Readable(D(Ev).fields[FieldByName(D(Ev), Ev.field)]) => ~Ev.compiles)
 
 (* C14: builder() offered exactly when sound *)
 TBuilder == /\ Ev.ev = "builder"
@@ -62,7 +71,7 @@ TExpansion == /\ Ev.ev = "expansion"
 
 TInit == l = 1
 TNext == /\ l <= Len(Rec) /\ l' = l + 1
-         /\ (TVerdict \/ TEnumVerdict \/ TProbe \/ TBuilder \/ TChain \/ TConst \/ TRegime \/ TExpansion)
+         /\ (TVerdict \/ TDefVerdict \/ TEnumVerdict \/ TNoRead \/ TProbe \/ TBuilder \/ TChain \/ TConst \/ TRegime \/ TExpansion)
 Accepted == IF TLCGet("stats").diameter - 1 = Len(Rec) THEN TRUE
             ELSE /\ PrintT(<<"REJECTED", TLCGet("stats").diameter, ToJson(Rec[TLCGet("stats").diameter]), "-">>)
                  /\ FALSE
